@@ -107,6 +107,40 @@ def corrupt(text, rng):
     return " ".join(toks) + "\n", k
 
 
+def scaling_families():
+    """(name, sizes, text maker): projects whose size is one parameter"""
+    def hdr(scen="", res="60min"):
+        return f'project prj "Prj" 2025-01-06 +8w {{ timezone "Etc/UTC" timingresolution {res} {scen} }}\n'
+
+    def nested_scenarios(n):
+        s = ""
+        for i in range(n, 1, -1):
+            s = f'scenario s{i} "S{i}" {{ {s} }}'
+        scen = f'scenario plan "Plan" {{ {s} }}' if n > 1 else ""
+        over = f"s{n}:effort 6h" if n > 1 else ""
+        return (hdr(scen, "15min") + 'resource grp "G" { limits { dailymax 6h } resource r1 "R1" {} resource r2 "R2" {} }\n'
+                'task c "C" { limits { weeklymax 20h } task in "IN" { task x "X" { effort 4h ' + over + ' allocate r1 } }\n'
+                '  task y "Y" { effort 3h allocate r2 depends !in.x } }\n'
+                'task z "Z" { effort 2h allocate r1, r2 depends c }\n')
+
+    def chain(n):
+        t = "".join(f'task t{i} "T{i}" {{ effort 2h allocate r{i % 2} ' + (f"depends !t{i - 1}" if i else "") + " }\n" for i in range(n))
+        return hdr() + 'resource r0 "R0" {}\nresource r1 "R1" { limits { dailymax 4h } }\n' + f'task c "C" {{\n{t}}}\n'
+
+    def nested_containers(n):
+        inner = 'task leaf "L" { effort 3h allocate r0 }'
+        for i in range(n):
+            inner = f'task c{i} "C{i}" {{ limits {{ dailymax 5h }} {inner} task s{i} "S{i}" {{ effort 1h allocate r0 }} }}'
+        return hdr() + 'resource r0 "R0" {}\n' + inner + "\n"
+
+    def resolution(n):      # n = slots per hour
+        return (hdr(res=f"{60 // n}min") + 'resource r0 "R0" { limits { dailymax 3h } }\n'
+                'task a "A" { effort 30h allocate r0 }\ntask b "B" { effort 10h allocate r0 depends a }\n')
+
+    return [("nested-scenarios", [1, 2, 3, 4], nested_scenarios), ("chain", [10, 20, 40, 80], chain),
+            ("nested-containers", [2, 4, 8], nested_containers), ("resolution", [1, 2, 4, 12], resolution)]
+
+
 def macro_texts(rng, valid_texts, n):
     """valid project texts with macro definitions in front and a call inside: cycles of every length, self-reference
     with and without growth, doubling, long legitimate chains, unknown macros, calls inside macro bodies of comments"""
@@ -238,6 +272,32 @@ def run(chk):
         if cls not in ("ParseError", "Scheduled"):
             found.append((f"C11: macro text ({kd}) raised an internal error instead of a parse error: {ob}", {"text": t, "macro_kind": kd, "impl": ob}))
     chk.cov["macro_kinds"] = mkinds
+    # (iv) scaling families: the same small project at growing size; CPU time must grow about linearly
+    fams = scaling_families()
+    lines = []
+    idx = []
+    for name, sizes, make in fams:
+        for n in sizes:
+            lines.append("J " + json.dumps({"op": "timed", "text": make(n), "budget": 300}))
+            idx.append((name, n))
+    outs = chk.impl.run(lines, jobs=4)
+    times = {}
+    for (name, n), o in zip(idx, outs):
+        if not o.startswith("J "):
+            found.append((f"C11: scaling family {name} size {n}: {o[:120]}", {"family": name, "size": n, "text": dict((nm, mk) for nm, _, mk in fams)[name](n)}))
+            continue
+        ob = json.loads(o[2:])
+        times.setdefault(name, []).append((n, ob["cpu"], ob["outcome"]))
+    for name, sizes, make in fams:
+        ts = times.get(name, [])
+        if len(ts) == len(sizes):
+            (n0, t0, _), (n1, t1, _) = ts[0], ts[-1]
+            # size grows by n1/n0; allow that factor times 4 plus a constant for start-up noise
+            if t1 > 4 * (n1 / n0) * (t0 + 0.25) + 1.0:
+                found.append((f"C11: scaling family {name}: {t0:.2f} s of CPU at size {n0} but {t1:.2f} s at size {n1} — not proportional to the size",
+                              {"family": name, "times": ts, "text": make(n1)}))
+    chk.cov["scaling"] = {k: v for k, v in times.items()}
+    chk.cov["evaluations"] += len(lines)
     chk.cov["evaluations"] += len(others) + len(mal) + len(mtexts)
     chk.cov["distinct_nontrivial"] = len({t for t, _ in mal}) + len(set(texts))
     chk.cov["infeasible_kinds"] = kinds
@@ -248,6 +308,8 @@ def run(chk):
                        "level corruptions of valid texts (delete, duplicate, swap, character flip, brace, truncation, junk token): only 'parse "
                        "error' or a schedule are admissible; (iii) macro texts (self-reference with and without growth, doubling, cycles of length 2 and 3, "
                        "long legitimate chains, unknown macros): expansion must stay bounded — an answer within 40 s, parse error or schedule; "
+                       "(iv) scaling families (nested scenarios 1-4 with container limits, dependency chains of 10-80 tasks, containers nested "
+                       "2-8 deep, resolutions 60-5 min): CPU time at the largest size at most 4 x (size ratio) x the time at the smallest; "
                        "non-trivial = distinct texts")
     chk.assumptions += ["Lark's behaviour, Python exceptions in glue code, recursion limits and wall-clock are observed, not modelled (partial)"]
     return conclude(chk, dis, lambda: found)
